@@ -443,12 +443,12 @@ ADDENDA = {
     "C02": "Futures that are born resolved (static set_value / set_exception / set_not_value, also future<T&>) are replayed for every waiter kind; a named promise move-assigned over a promise with parked waiters releases them with no-value at the assignment and the source is refused afterwards.",
     "C05": "Native entry through install_queue_and_call / create_suspend_point with a function that returns or THROWS after readying "
            "coroutines (FullDrain on the exceptional exit), coroutine bodies left by an exception, and the coroutine's own handle (co_await self()) "
-           "held and awaited together with other ready coroutines at every position (OwnHandleUse) are part of the program alphabet.",
+           "held and awaited together with other ready coroutines at every position (OwnHandleUse), and co_await of a stopped thread pool from coroutine mode (PoolCancelled) are part of the program alphabet.",
     "C06": "The destroying operations (Clear, Destroy, the discarded temporary, CreateSP, scope exit) carry a control-flow context - normal flow, "
            "stack unwinding, a destructor during unwinding, a catch handler - in both modes; Conservation / NoDoubleResume / NoLeak hold in every context.",
     "C07": "MutexMulti.tla adds several mutex objects used by the same parties (every action indexed by mutex; per-mutex MutualExclusion / GrantOnce / "
            "FIFO / NoOrphanLock and Independence), a shared holder slot re-assigned by the next owner from inside the hand-off (release = detach, then "
-           "unlock; callback requests through await_suspend(fn, ctx)), all histories of 5-7 calls replayed on real mutexes. The mutex replayers have "
+           "unlock; callback requests through await_suspend(fn, ctx) as two calls, Ask and Suspend, with a release allowed in between), all histories of 5-7 calls replayed on real mutexes. The mutex replayers have "
            "reduced-observation fallback builds: a changed private representation degrades the projection instead of breaking the check.",
     "C08": "Shares MutexMulti.tla and the fallback builds with C07 (holder-slot hand-over, several mutexes, try_lock probes by a bystander).",
     "C09": "Items are records built from the push argument form (one/two/zero arguments, copy, const reference, move; ValueIntact over a class type with an "
@@ -467,13 +467,13 @@ ADDENDA = {
            "ExceptionReportedOthersKept demands that exactly what left the source (object identity and dynamic type) is what the consumer gets, in every access style.",
     "C19": "Completion under promise_extra_storage is two ordered steps (DtorBegin: the attached object's destructor runs, other creations enabled; DtorEnd: the block "
            "goes back to the base policy; ExtraDiesInOwnBlock), and every frame carries its address relative to the area its policy owns (heap block, buffer at "
-           "any alignment offset, stack area, placement area) with LargeEnough / Exclusive stated over address ranges.",
+           "any alignment offset, stack area, placement area) with LargeEnough / Exclusive stated over address ranges; operator new may throw inside a policy's alloc (CreateFail: nothing changes).",
     "C16": "Degenerate publishes are actions of the spec and replayed: the empty batch (a self-loop that must wake nobody), a batch longer than the window, "
            "publish on a closed publisher, subscription ahead of the stream; the range is passed as vector, list or pointer pair.",
     "C17": "The blocking entry points of shared_future itself are waiting forms of the spec (wait / sync+value / force_sync / join / force_wait, the force_ forms "
            "inside coroutine mode) with ThrowsAsDocumented; forms rotate over all blocking-waiter paths, two free-form configurations replay every form. The factory of every round has an outcome (pending / ready value / exception / no-value / throws) and a promise may be destroyed by stack unwinding.",
     "C18": "Registration and resolution carry an execution context (plain, an RAII guard during stack unwinding, a catch handler, the promise destroyed at "
-           "scope exit or by unwinding - ~promise as its own code site); no action reads the context, so CallbackOnce / RightOutcome / HelperFreedOnce hold in every one.",
+           "scope exit or by unwinding - ~promise as its own code site); no action reads the context, so CallbackOnce / RightOutcome / HelperFreedOnce hold in every one; the factory of the << forms may throw (FactoryFail) and a promise may be move-assigned over a slot that still holds a target.",
 }
 
 NOT_BUILT = "check not built yet in this revision (see DESIGN.md section 10 build order)"
